@@ -207,6 +207,12 @@ func genURL(r *core.Rand, want int) string {
 	} else if r.Bool(0.05) {
 		q = "?"
 	}
+	if want == 0 && user == "" && r.Bool(0.04) {
+		// no user-info, no path, and a query that looks like one: '@', an escape, a '/'
+		path = ""
+		q = "?" + genToken(r, pathChars, 1, 6) + "=" + genToken(r, pathChars, 1, 5) + "@" + genToken(r, pathChars, 0, 5) +
+			[]string{"%20", "%C3%A9", "%25", "%40"}[r.Intn(4)] + genToken(r, pathChars, 0, 4) + "/" + genToken(r, pathChars, 0, 6)
+	}
 	if want > 0 {
 		// pad the path so that the URL without user-info has exactly the wanted length
 		cur := len(scheme) + 3 + len(host) + len(path) + len(q)
@@ -526,6 +532,13 @@ func gen(seed uint64, tier string) Scenario {
 			sc.UA = genValue(r.U64(), r.Pick(1, 10, 40, 200, 2047))
 		}
 		n := r.Range(1, 6)
+		// a long conversation on one connection: tens of kilobytes from the client (more than the
+		// 30000 placeholder Content-Length of the tunnel's POST request announces); hash-derived
+		// so that no other choice moves
+		if x := core.HS(seed, "c04.longhaul", "", 0); x%100 < 20 {
+			n = 14 + int((x>>8)%12)
+			sc.UA = genValue(x>>16, []int{1500, 2047}[(x>>40)%2])
+		}
 		for i := 0; i < n; i++ {
 			op := E2EOp{Kind: "options"}
 			if r.Bool(0.6) {
@@ -805,7 +818,7 @@ func init() {
 		"wire byte flips in the client-to-server WebSocket direction (gorilla masks with math/rand: the outcome is not a function of the scenario); that direction gets truncation, message mutation and garbage",
 		"requests built with a nil Header and a non-empty Body (Marshal writes Content-Length into the caller's map and panics on a nil map: caller error, not framing)",
 	}
-	f.Rule = "scenario = carrier (direct | HTTP tunnel | WebSocket) x mode. roundtrip: seeded element sequences in both directions at once (1..30 elements per direction: requests with any of the 10 methods or unknown tokens, URLs with IPv4/IPv6/host names, ports, user-info, escapes, queries, '*'; responses with any 1..999 status and default or arbitrary message; 0..255 header lines with 1..3 values per key, standard keys in arbitrary case, keys/values up to the limits, empty values; bodies 0..131072; frames 0..65535 bytes on channels 0..255; optional CR/LF/SP filler in front of an element), one Write per element, several elements per Write or several Writes per element (= base64 blocks / WebSocket messages that end inside elements), scheduler chunk mode 0..3 (1-byte reads for the small profiles); three size profiles (tiny / mixed / one element at a documented bound). truncate: FIN or RST at a seeded offset class (request line, CRLF, frame header, body, element boundary +-1, last byte, uniform). corrupt: 1..3 wire byte flips, grammar-level message mutations (peers.Mutator) or pure garbage. overlimit: an element beyond one documented limit (header count, key, value, URL, method, body length, huge Content-Length) after 0..2 good ones, with more bytes following. e2e: real Client and Server over the same three carriers, OPTIONS / DESCRIBE calls with seeded URLs, User-Agent and handler responses (status, headers, body). non-trivial = at least one element was compared (roundtrip, e2e), the fault fired (truncate, corrupt) or the over-limit element was refused after the memory checks; distinct = distinct canonical event log (scenario hash + per-read outcomes)"
+	f.Rule = "scenario = carrier (direct | HTTP tunnel | WebSocket) x mode. roundtrip: seeded element sequences in both directions at once (1..30 elements per direction: requests with any of the 10 methods or unknown tokens, URLs with IPv4/IPv6/host names, ports, user-info, escapes, queries, '*'; responses with any 1..999 status and default or arbitrary message; 0..255 header lines with 1..3 values per key, standard keys in arbitrary case, keys/values up to the limits, empty values; bodies 0..131072; frames 0..65535 bytes on channels 0..255; optional CR/LF/SP filler in front of an element), one Write per element, several elements per Write or several Writes per element (= base64 blocks / WebSocket messages that end inside elements), scheduler chunk mode 0..3 (1-byte reads for the small profiles); three size profiles (tiny / mixed / one element at a documented bound). truncate: FIN or RST at a seeded offset class (request line, CRLF, frame header, body, element boundary +-1, last byte, uniform). corrupt: 1..3 wire byte flips, grammar-level message mutations (peers.Mutator) or pure garbage. overlimit: an element beyond one documented limit (header count, key, value, URL, method, body length, huge Content-Length) after 0..2 good ones, with more bytes following. e2e: real Client and Server over the same three carriers, OPTIONS / DESCRIBE calls with seeded URLs, User-Agent and handler responses (status, headers, body); a fifth of them long conversations (14..25 calls with a 1.5-2 KB User-Agent: tens of kilobytes from the client on one connection). URLs without user-info must keep their query verbatim through base.ParseURL (4%: no path and a query with '@', an escape and a '/'). non-trivial = at least one element was compared (roundtrip, e2e), the fault fired (truncate, corrupt) or the over-limit element was refused after the memory checks; distinct = distinct canonical event log (scenario hash + per-read outcomes)"
 	f.Assumptions = []string{
 		"header keys are compared case-insensitively: the reader rewrites keys to canonical MIME form (except RTP-Info, WWW-Authenticate, CSeq, KeyMgmt); generated header maps hold no two keys that differ only in case",
 		"header values are compared after removing leading spaces (the reader skips any amount of SP after the colon, RFC 2616 4.2); the order of the values of one key must be preserved",
